@@ -32,7 +32,7 @@ def qlist(xs):
 def run(ctx):
     ctx.rule = ("random tubes (r 10-25, t/r 0.1-0.2, nr 3-5, nt 4-8, nz 2-4, 1D/2D/3D), elastic NEML materials with constant, affine "
                 "or kinked expansion coefficient, 2-4 step histories of nodal temperature (radial/circumferential/axial variation, "
-                "uniform, outer-surface-only, slow drifts of a few mK per step), pressure and top displacement; variants: altered future, trial solves, first state created without a time index, refined "
+                "uniform, outer-surface-only, slow drifts of a few mK per step), pressure and top displacement; creeping/plastic shipped models at 850-950 K for the causality variants; variants: altered future, trial solves, first state created without a time index, refined "
                 "steps, forced sub-increments, free expansion.  one case = one tube run; all non-trivial")
     ctx.trusted += ["scikit-fem assembly and interpolation, NEML SmallStrainElasticity (the finite-element solve is run, not modelled)",
                     "translator harness/translators/strainbook.py"]
@@ -89,6 +89,35 @@ def run(ctx):
             fd = copy.deepcopy(c)
             fd["params"] = {"force_divide": True, "max_divide": rng.choice([1, 2])}
             jobs.append(("forced-kink", b, add(fd, "forced-kink")))
+    # creeping / plastic shipped models: bookkeeping and causality hold for every material
+    for i in range(ctx.budget(3, 9)):
+        c = gen_geometry(rng, dim=[1, 2, 3][i % 3])
+        c.update(nr=3, nt=6, nz=2)
+        c["material"] = {"kind": "shipped", "name": rng.choice(["740H", "316H", "A617", "800H"]), "variant": rng.choice(["base", "elastic_creep"]),
+                         "alpha_kind": "shipped"}
+        c.update(gen_history(rng, c, nsteps=3))
+        n = len(c["temps"][0])
+        c["temps"] = [[300.0] * n] + [[rng.uniform(850, 950) + 30.0 * t / max(n - 1, 1) for t in range(n)] for _ in range(3)]
+        c["times"] = [0.0, 500.0, 1500.0, 3000.0]
+        c["pressure"] = [0.0] + [rng.uniform(2.0, 10.0) for _ in range(3)]
+        c["dtop"] = [0.0] + [rng.uniform(3e-3, 9e-3) * c["h"] for _ in range(3)]
+        c["probe"] = ["mesh"]
+        b = add(c, "inelastic")
+        jobs.append(("base", b, None))
+        k = rng.randint(1, 2)
+        alt = copy.deepcopy(c)
+        for j in range(k + 1, 4):
+            alt["temps"][j] = [t + rng.uniform(-40, 40) for t in alt["temps"][j]]
+            alt["pressure"][j] = alt["pressure"][j] * 1.5 + 1.0
+            alt["dtop"][j] = alt["dtop"][j] * 0.5
+        jobs.append(("future", b, add(alt, "inelastic-future"), k))
+        trunc = copy.deepcopy(c)
+        for key in ("times", "temps", "pressure", "dtop"):
+            trunc[key] = c[key][:k + 1]
+        jobs.append(("truncated", b, add(trunc, "inelastic-truncated"), k))
+        tr = copy.deepcopy(c)
+        tr["trial"] = {str(j): [c["dtop"][j] * 0.3, c["dtop"][j] * 1.4] for j in range(1, 4)}
+        jobs.append(("trial", b, add(tr, "inelastic-trial")))
     for i in range(ctx.budget(6, 24)):
         c = gen_geometry(rng, dim=[1, 2, 3][i % 3])
         c["material"] = gen_material(rng)
@@ -150,6 +179,8 @@ def run(ctx):
         ne, nq = T.shape[1], T.shape[2]
         pts = [(rng.randrange(ne), rng.randrange(nq)) for _ in range(ctx.budget(4, 12))]
         m = c["material"]
+        if m["alpha_kind"] == "shipped":
+            continue            # the shipped expansion tables live in NEML; only bookkeeping and causality are checked for them
         a_term = "(alpha_pw %s %s)" % (qlist(m["alpha_T"]), qlist(m["alpha_v"]))
         for (el, q) in pts:
             temps = T[:, el, q]
